@@ -257,6 +257,19 @@ func genMinterCfg(rng *Rng, t0 time.Time) minterCfg {
 				minStep = time.Second
 			}
 			g.step = minStep + time.Duration(rng.I64n(int64(minStep)*20+1))
+			manySteps := rng.Chance(12)
+			if manySteps {
+				// a long period of short steps: 1100 to 3000 of them (the amounts below stay sizeable throughout)
+				span := dur
+				if last {
+					span = 400 * 24 * time.Hour
+				}
+				if st := span / time.Duration(1100+rng.I64n(1900)); st >= time.Second {
+					g.step = st
+				} else {
+					manySteps = false
+				}
+			}
 			if rng.Chance(40) {
 				g.step = g.step.Truncate(time.Second)
 				if g.step < time.Second {
@@ -274,6 +287,9 @@ func genMinterCfg(rng *Rng, t0 time.Time) minterCfg {
 				g.mult = sdk.NewDecWithPrec(990+rng.I64n(10), 3)
 			default:
 				g.mult = sdk.NewDecFromBigIntWithPrec(rng.BigBelow(new(big.Int).Exp(bi(10), bi(18), nil)), 18)
+			}
+			if manySteps {
+				g.mult = []sdk.Dec{sdk.OneDec(), sdk.NewDecWithPrec(9990+rng.I64n(10), 4), sdk.NewDecWithPrec(930+rng.I64n(70), 3)}[rng.Intn(3)]
 			}
 		}
 		if g.end != nil {
@@ -513,6 +529,8 @@ func runMinterCase(ta *TestApp, seed uint64, idx int, rep *Report, profile strin
 	want := scheduleCumulative(c, T)
 	if want != nil && !k10 {
 		rep.Eval("C02.cumulative_equals_schedule", totals[0].Cmp(want) == 0, idx*10, -1, fmt.Sprintf("minted %v schedule floor %v at %d", totals[0], want, T.UnixNano()))
+		// C01, minter side: the supply grew by what the configured schedule emits up to T, nothing else
+		rep.Eval("C01.supply_grows_by_what_the_schedule_emits", totals[0].Cmp(want) == 0, idx*10, -1, fmt.Sprintf("supply grew by %v, the schedule emits %v up to %d", totals[0], want, T.UnixNano()))
 	}
 	if want != nil && !k10 && rng.Chance(45) {
 		runMinterFaultLeg(ta, rng, c, st, t0, T, idx, rep, want)
@@ -662,9 +680,16 @@ func runMinterUpdateLeg(ta *TestApp, rng *Rng, c minterCfg, st mintertypes.Minte
 	c2 := c
 	c2.minters = append([]genMinter{}, c.minters...)
 	changed, lowered := false, false
+	// in a quarter of the legs governance re-submits the configuration in force (a proposal that changes something else, or
+	// nothing): the update is accepted, the schedule is the same, and so must be what the whole history mints
+	same := rng.Chance(25)
+	if same {
+		changed = true
+		rep.Count("update_leg.same_configuration_resubmitted")
+	}
 	for i := range c2.minters {
 		g := &c2.minters[i]
-		if g.seq >= cur && g.kind != 0 {
+		if !same && g.seq >= cur && g.kind != 0 {
 			switch rng.Pick(3, 1, 3) {
 			case 0:
 				g.amt = new(big.Int).Add(new(big.Int).Mul(g.amt, bi(4)), bi(1))
@@ -718,14 +743,15 @@ func runMinterUpdateLeg(ta *TestApp, rng *Rng, c minterCfg, st mintertypes.Minte
 	}
 	blocks, tot2 := minterBlockTerms(rep, c2, cid, times[cut:], obs2, lowered, s1k)
 	stuckClass = "K10"
-	if discard {
+	if discard || same {
 		tot := new(big.Int).Set(tot2)
 		for _, o := range obs1 {
 			tot.Add(tot, o.minted)
 		}
 		if want := scheduleCumulative(c, times[len(times)-1]); want != nil {
 			rep.Eval("C02.cumulative_equals_schedule", tot.Cmp(want) == 0, cid, len(times)-1,
-				fmt.Sprintf("minted %v up to %d, the configured schedule gives %v (a parameter update was executed on a dropped branch of the state in between)", tot, times[len(times)-1].UnixNano(), want))
+				fmt.Sprintf("minted %v up to %d, the configured schedule gives %v (in between a parameter update %s)", tot, times[len(times)-1].UnixNano(), want,
+					map[bool]string{true: "was executed on a dropped branch of the state", false: "re-submitted the configuration in force and was accepted"}[discard]))
 		}
 	}
 	return []string{fmt.Sprintf("{| mc_id := %d; mc_world := {| mw_params := %s; mw_state := %s; mw_hist := %s; mw_supply := %s |};\n mc_valid := true; mc_blocks := [\n  %s] |}",
